@@ -467,6 +467,7 @@ def determinism_selftest(prop_id: str, batch_seed: int, n: int, jobs: int, opts:
     under another PYTHONHASHSEED.  All digests must agree."""
     o = dict(opts)
     o["digests"] = True
+    o["max_unknown"] = 1 << 60
     o["chunk"] = 50
     a = run_batch(prop_id, batch_seed, n, jobs, 600, o)
     o2 = dict(o)
@@ -487,6 +488,8 @@ def determinism_selftest(prop_id: str, batch_seed: int, n: int, jobs: int, opts:
     if p.returncode != 0:
         raise HarnessError(f"fresh-interpreter digest run failed: {p.stderr[-1500:]}")
     dc = {int(k): v for k, v in json.loads(p.stdout.strip().splitlines()[-1]).items()}
+    if set(da) != set(db):
+        raise HarnessError(f"determinism self-test: runs missing ({len(da)} vs {len(db)} digests)")
     mism = [s for s in da if da[s] != db.get(s)]
     mism += [s for s in dc if dc[s] != da.get(s)]
     if a["harness"] or b["harness"]:
